@@ -203,13 +203,15 @@ class Sched:
             self.sems[first].release()
         signalled = self.done.acquire(timeout=join_timeout)
         if not signalled:
-            # a thread blocks outside the scheduler's control: give up, wake everybody (each raises Stuck at its
-            # next yield point, which also unwinds `with` blocks and so frees whoever waits on a real lock)
+            # a thread blocks outside the scheduler's control (e.g. on a lock that is not the proxied guard, held by a
+            # thread that is waiting for its turn).  Give up and leave the threads parked where they are (daemon
+            # threads): waking them all would let them run truly concurrently under opcode tracing, which CPython
+            # 3.12 does not survive (segfault in the instrumentation); a thread that does wake up sees `stuck`.
             self.stuck = True
-            self._abort()
+            return False
         for th in threads:
-            th.join(join_timeout if signalled else 1.0)
-        ok = signalled and (not self.stuck) and all(not th.is_alive() for th in threads)
+            th.join(join_timeout)
+        ok = (not self.stuck) and all(not th.is_alive() for th in threads)
         if not ok and not self.stuck:
             self.stuck = True
             self._abort()
